@@ -15,6 +15,8 @@ def run(rep, tier):
     rep.rule("R-GRADE-SCALE", "every tolerance scale is homogeneous of degree 1 in the state: atol + rtol*|y| (not rtol + atol*|y|, not missing |y|)")
     rep.rule("R-GRADE", "the quantity compared with 1 is homogeneous of degree 0 in the state scale and in the number of copies (a per-component RMS norm)")
     rep.rule("R-AFF-EST", "the vector that is normalised is the embedded error estimator of the advertised order")
+    rep.rule("R-TOL-ROUTE", "solve_ivp passes Options::rtol to each stepper's rtol parameter and Options::atol to atol")
+    tol.r_tol_route(rep, f)
     tol.r_tol_once(rep, f)
     tol.r_tol_index(rep, f)
     tol.r_accept_one(rep, f)
